@@ -10,3 +10,5 @@ import Props.C06
 #print axioms C06.C06_disabled_resets
 #print axioms C06.C06_disabled_resets_decode
 #print axioms C06.C06_position_independent
+#print axioms C06.C06_withdrawals_executed
+#print axioms C06.C06_reset_delivers_nothing
